@@ -177,13 +177,16 @@ def h_query(reg, D, uni, cached):
         ea = alpha(a, uni)
         tag = 'query[D=%d,cache=%d]' % (D, cached)
         pre_nodup = nodup(a)
+        iarea = z3.Sum([z3.IntVal(0)] + [z3.If(b, 4 ** (D - d), 0) for d in range(1, D + 1) for u, b in a.pixeldict[d].bits.items()])
         area = a.get_area(degrees=False)
         na = alpha(a, uni)
         c.oblige(tag + ':get_area leaves alpha', z3.And([na[u] == ea[u] for u in ea]))
         import healpy
         A = healpy.nside2pixarea(2 ** D)
         cnt = z3.Sum([z3.If(ea[u], 1, 0) for u in ea])
-        c.oblige(tag + ':area == |alpha| * pixarea', core.lift(area) == z3.ToReal(cnt) * core.const(A), assume=[pre_nodup])
+        # area == |alpha| * pixarea, split so that each half is easy for the solver:
+        c.oblige(tag + ':area == weighted pixel count * pixarea', core.lift(area) == z3.ToReal(iarea) * core.const(A))
+        c.oblige(tag + ':weighted pixel count == |alpha| (no patch twice)', iarea == cnt, assume=[pre_nodup])
         dm = a.get_demoted()
         c.oblige(tag + ':get_demoted == alpha', z3.And([dm.bits.get(u, FALSE) == ea[u] for u in ea] + [z3.Not(bb) for u, bb in dm.bits.items() if u not in ea]))
         na = alpha(a, uni)
